@@ -496,8 +496,18 @@ fn is_case_insensitive_fs(path: &Path) -> bool {
     let test_lower = path.join(".renamify_case_test");
     let test_upper = path.join(".RENAMIFY_CASE_TEST");
 
+    // Never touch an existing entry of either name: it belongs to the user
+    if test_lower.symlink_metadata().is_ok() || test_upper.symlink_metadata().is_ok() {
+        return false;
+    }
+
     // Try to create the lowercase file
-    if File::create(&test_lower).is_ok() {
+    if fs::OpenOptions::new()
+        .write(true)
+        .create_new(true)
+        .open(&test_lower)
+        .is_ok()
+    {
         // Check if uppercase path exists
         let case_insensitive = test_upper.exists();
 
